@@ -641,3 +641,146 @@ func remoteProofVersionRule(c *Ctx, rule string) {
 	ev.Name, ev.Fn = "verification and merge of the fetched proof", fn
 	c.DominatedByCond(rule, fn, "proof.V == the version asked for", `^\*call:param:fetcher\(.*\)#0\.V == \d+$`, ev, "a proof of another version than the one requested is refused before anything of it is merged (F69)")
 }
+
+// sharePoolPrimitivesRule (seed C05r5/13; run under C05 and C15): Deposit and Withdraw are the conserving primitives of
+// share bookkeeping — each succeeds only after all three of its updates succeeded (the stake move, the pool's total
+// shares, the holder's shares). An early success exit that skips the share updates when the shares are worth nothing
+// leaves the pool's total above the sum of the delegations once the caller deletes the delegation record.
+func sharePoolPrimitivesRule(c *Ctx, rule string) {
+	for _, it := range []struct{ fn, op string }{{"staking/api.(*SharePool).Deposit", "Add"}, {"staking/api.(*SharePool).Withdraw", "Sub"}} {
+		fn := c.needFn(rule, it.fn)
+		if fn == nil {
+			continue
+		}
+		mv := CallsTo(fn, "Move(stake)", "common/quantity.Move", "")
+		tot := CallsTo(fn, "TotalShares."+it.op, "common/quantity.(*Quantity)."+it.op, `param:p\.TotalShares`)
+		var holder Ev
+		holder = Ev{Name: "holder shares." + it.op, Fn: fn}
+		for _, call := range CallsTo(fn, "", "common/quantity.(*Quantity)."+it.op, "").Calls() {
+			if r := vstr(recvOf(call)); r == "param:shareDst" || r == "param:shareSrc" {
+				holder.Ins = append(holder.Ins, call)
+			}
+		}
+		c.successOnlyVia(rule, fn, mv, "the stake moves between the pool balance and the holder")
+		c.successOnlyVia(rule, fn, tot, "the pool's total shares change with every successful deposit / withdrawal")
+		c.successOnlyVia(rule, fn, holder, "the holder's shares change with every successful deposit / withdrawal")
+	}
+}
+
+// aliasedAccountsRule (seed C05r5/15): a handler that loads two accounts whose addresses may be equal, changes them and
+// stores both must not hold two copies of one account — the second Account() load lies behind the `a.Equal(b)` test of
+// the two addresses (taken false). Otherwise the copy stored last overwrites the other's debit or credit.
+func aliasedAccountsRule(c *Ctx) {
+	const pk = "consensus/cometbft/apps/staking"
+	n := 0
+	for _, name := range []string{pk + ".(*Application).addEscrow", pk + ".(*Application).onEpochChange"} {
+		fn := c.needFn("C05.pair", name)
+		if fn == nil {
+			continue
+		}
+		loads := CallsTo(fn, "state.Account", pk+"/state.(*ImmutableState).Account", "").Calls()
+		stores := CallsTo(fn, "state.SetAccount", pk+"/state.(*MutableState).SetAccount", "").Calls()
+		stored := map[string]bool{}
+		for _, s := range stores {
+			if a := allArgs(s); len(a) >= 3 {
+				stored[vstr(a[2])] = true
+			}
+		}
+		var addrs []string
+		var calls []ssa.CallInstruction
+		for _, l := range loads {
+			if a := allArgs(l); len(a) >= 3 && stored[vstr(a[2])] {
+				addrs = append(addrs, vstr(a[2]))
+				calls = append(calls, l)
+			}
+		}
+		for i := 0; i < len(calls); i++ {
+			for j := i + 1; j < len(calls); j++ {
+				if addrs[i] == addrs[j] {
+					continue
+				}
+				n++
+				guarded := false
+				ai, aj := allArgs(calls[i])[2], allArgs(calls[j])[2]
+				for _, at := range []ssa.Instruction{calls[i], calls[j]} {
+					for _, h := range heldCondVals(at) {
+						cond, pol := stripNot(h.Cond, h.Pol)
+						eq, ok := cond.(*ssa.Call)
+						if !ok || pol || !strings.HasSuffix(calleeNameCommon(&eq.Call), "staking/api.(Address).Equal") || len(eq.Call.Args) != 2 {
+							continue
+						}
+						x, y := eq.Call.Args[0], eq.Call.Args[1]
+						if (sameValue(x, ai, 0) && sameValue(y, aj, 0)) || (sameValue(x, aj, 0) && sameValue(y, ai, 0)) {
+							guarded = true
+						}
+					}
+				}
+				c.Check(guarded, "C05.pair", fname(fn)+":two stored accounts are loaded separately only when their addresses differ", c.P.InstrPos(calls[j]), "the second Account() load is behind the !Equal test of the two addresses", "accounts "+vstrShort(allArgs(calls[i])[2])+" and "+vstrShort(allArgs(calls[j])[2])+" are both loaded and both stored without an equality test of the two addresses guarding the second load: when they are the same account the copy stored last overwrites the other's change (value is created or destroyed)")
+			}
+		}
+	}
+	c.Floor("C05.pair", n, 2, "pairs of separately loaded and stored accounts with possibly equal addresses")
+}
+
+// c06Round5 (seeds C06r5/13, 14).
+func c06Round5(c *Ctx) {
+	const bWB = "github.com/dgraph-io/badger/v4.(*WriteBatch)"
+	// (14) pathbadger: the sequence number of a pending root is durable before the root exists — Commit records it,
+	// commits the metadata, and only then flushes the batch with the root node (first reported by C07.order only; a
+	// restart in between leaves a root that is reported present and resolves its nodes in the finalized keyspace, i.e.
+	// in a competing candidate's nodes).
+	if fn := c.needFn("C06.seqno", "storage/mkvs/db/pathbadger.(*badgerBatch).Commit"); fn != nil {
+		batFlush := CallsTo(fn, "bat.Flush", bWB+".Flush", `param:ba\.bat\b`)
+		mcommit := CallsTo(fn, "meta.commit", "storage/mkvs/db/pathbadger.(*metadata).commit", "")
+		setSeq := CallsTo(fn, "setPendingRootSeqNo", "storage/mkvs/db/pathbadger.(*metadata).setPendingRootSeqNo", "")
+		c.MustPrecede("C06.seqno", fn, setSeq, mcommit, "the pending root's sequence number is recorded before the metadata commit")
+		c.MustPrecede("C06.seqno", fn, mcommit, batFlush, "the sequence number is durable before the root node is stored")
+	}
+	// (13) badger restore log: whether a restored node goes into the multipart restore log (and is therefore deleted
+	// when the restore is aborted) is decided by looking it up: the log entry is written only where the read
+	// transaction's Get of that node's key answered "key not found" — for every kind of node. A node that existed
+	// before the restore (shared with an earlier finalized version) must survive an abort.
+	if fn := c.needFn("C06.guard", "storage/mkvs/db/badger.(*badgerBatch).PutNode"); fn != nil {
+		var logSets []ssa.Instruction
+		for _, call := range CallsTo(fn, "", bWB+".Set", "").Calls() {
+			if strings.Contains(vstr(recvOf(call)), "multipartNodes") {
+				logSets = append(logSets, call)
+			}
+		}
+		inst := fname(fn) + ":restore-log entry only for a node the database did not have"
+		ok, why := len(logSets) > 0, "the write of the multipart restore log entry was not found in PutNode"
+		for _, ls := range logSets {
+			found := false
+			for _, h := range heldCondVals(ls) {
+				call, isCall := h.Cond.(*ssa.Call)
+				if !isCall || !h.Pol || calleeNameCommon(&call.Call) != "errors.Is" || len(call.Call.Args) != 2 {
+					continue
+				}
+				if !strings.HasSuffix(vstr(call.Call.Args[1]), "badger/v4.ErrKeyNotFound") {
+					continue
+				}
+				// the tested error is the lookup's own result on every path
+				all := true
+				for _, r := range Roots(call.Call.Args[0]) {
+					if r.Kind == "alloc" {
+						continue
+					}
+					if !(r.Kind == "call" && strings.HasPrefix(r.Name, "github.com/dgraph-io/badger/v4.(*Txn).Get#1")) {
+						all = false
+						why = "the error tested for 'key not found' before the restore-log entry is written is not (only) the result of the node lookup (" + r.String() + ")"
+					}
+				}
+				if all {
+					found = true
+				}
+			}
+			if !found {
+				ok = false
+				if why == "" || strings.HasPrefix(why, "the write of") {
+					why = "the restore-log entry is not guarded by errors.Is(lookup error, ErrKeyNotFound)"
+				}
+			}
+		}
+		c.Check(ok, "C06.guard", inst, c.P.Pos(fn.Pos()), "the log entry is written only under errors.Is(readTxn.Get(nodeKey) error, ErrKeyNotFound)", why+": a node that a finalized version already had is logged as restored, and aborting the restore deletes it — the finalized root becomes unreadable")
+	}
+}
